@@ -38,8 +38,9 @@ def Val.str' : Val → String
   | .bool b => s!"bool:{if b then 1 else 0}"
   | .u n v => s!"u{n}:{v}"
   | .i n v => s!"i{n}:{v}"
-  | .f32 b => if isNaN32 b then "f32:nan" else s!"f32:{b}"
-  | .f64 b => if isNaN64 b then "f64:nan" else s!"f64:{b}"
+  -- (the bit pattern, also for NaNs: a float read returns the value whose bits are the wire bytes)
+  | .f32 b => s!"f32:{b}"
+  | .f64 b => s!"f64:{b}"
   | .str s => s!"str:{hex s}"
   | .raw b => s!"raw:{hex b}"
 
